@@ -257,4 +257,27 @@ C09_Holds(c, i, o) ==
     [] c = "default-bodies" -> o.found /\ Len(i.methods) = Len(o.methods) => \A k \in DOMAIN i.methods : i.methods[k].default = o.methods[k].default
     [] c = "assoc-types" -> o.found => i.assoc = o.assoc
 C09_Fail(i, o) == { c \in C09_Conj : ~C09_Holds(c, i, o) }
+
+(***************************************************************************)
+(* C13  Generated traits have exactly the requested visibility.            *)
+(*  Module paths are sequences of names from the crate root.  An item      *)
+(*  declared in module `def` with visibility `vis` can be named from       *)
+(*  module `from` (in the same crate or not) iff (Rust reference,          *)
+(*  "Visibility and privacy"):                                             *)
+(***************************************************************************)
+ParentOf(path) == SubSeq(path, 1, Len(path) - 1)
+Accessible(vis, def, from, samecrate) ==
+  CASE vis = ""            -> samecrate /\ IsPrefix(def, from)
+    [] vis = "pub"         -> TRUE                                   \* (all enclosing modules of the test crates are pub)
+    [] vis = "pub(crate)"  -> samecrate
+    [] vis = "pub(super)"  -> samecrate /\ IsPrefix(ParentOf(def), from)
+    [] vis = "pub(in crate::cases)" -> samecrate /\ IsPrefix(<<"cases">>, from)
+\* in : [vis: the visibility written before the trait name (for an entraited trait: the trait's own visibility,
+\*       which the delegation-target trait must take), def, from, samecrate]
+\* o  : [compiled: does naming the trait from `from` compile, privacyonly: if not, is every error a privacy error]
+C13_Conj == {"accessible-iff-requested", "rejected-for-privacy"}
+C13_Holds(c, in, o) ==
+  CASE c = "accessible-iff-requested" -> o.compiled = Accessible(in.vis, in.def, in.from, in.samecrate)
+    [] c = "rejected-for-privacy"     -> ~o.compiled /\ ~Accessible(in.vis, in.def, in.from, in.samecrate) => o.privacyonly
+C13_Fail(in, o) == { c \in C13_Conj : ~C13_Holds(c, in, o) }
 =============================================================================
